@@ -1,4 +1,302 @@
+//! storage_sim: storage-level structures under a token scheduler.
+//!
+//!   storage_sim batch  --prop C10 --seed 1 --worker 0 --workers 16 --budget-s 60 --tier quick
+//!   storage_sim replay <file>
+//!   storage_sim shrink <file> <out> [budget]
+
+mod c09;
+mod c10;
+mod c15;
+mod c16;
+mod cbes;
+mod common;
+
+use std::{
+    collections::{BTreeMap, HashSet},
+    io::Write,
+    time::Instant,
+};
+
+use serde::{Deserialize, Serialize};
+use serde_json::Value;
+use simkit::{label, mix};
+
+use crate::common::Outcome;
+
+#[derive(Clone, Debug, Serialize, Deserialize)]
+pub struct ReplayFile {
+    pub property: String,
+    pub harness: String,
+    pub seed: u64,
+    pub scenario: Value,
+    pub choices: Option<Vec<String>>,
+    pub class: String,
+    pub message: String,
+    pub known: Option<String>,
+}
+
+fn arg(args: &[String], name: &str) -> Option<String> {
+    args.iter().position(|a| a == name).and_then(|i| args.get(i + 1).cloned())
+}
+
+fn generate(prop: &str, seed: u64, thorough: bool) -> Value {
+    match prop {
+        "C09" => serde_json::to_value(c09::generate(seed, thorough)).unwrap(),
+        "C10" => serde_json::to_value(c10::generate(seed, thorough)).unwrap(),
+        "C15" => serde_json::to_value(c15::generate(seed, thorough)).unwrap(),
+        "C16" => serde_json::to_value(c16::generate(seed, thorough)).unwrap(),
+        "C02" => serde_json::to_value(cbes::generate(seed, thorough)).unwrap(),
+        _ => panic!("unknown property {prop}"),
+    }
+}
+
+fn run(prop: &str, sc: &Value, replay: Option<Vec<String>>) -> Outcome {
+    match prop {
+        "C09" => c09::run(&serde_json::from_value(sc.clone()).unwrap(), replay),
+        "C10" => c10::run(&serde_json::from_value(sc.clone()).unwrap(), replay),
+        "C15" => c15::run(&serde_json::from_value(sc.clone()).unwrap(), replay),
+        "C16" => c16::run(&serde_json::from_value(sc.clone()).unwrap(), replay),
+        "C02" => cbes::run(&serde_json::from_value(sc.clone()).unwrap(), replay),
+        _ => panic!("unknown property {prop}"),
+    }
+}
+
+fn candidates(prop: &str, sc: &Value) -> Vec<Value> {
+    fn conv<T: Serialize>(v: Vec<T>) -> Vec<Value> {
+        v.into_iter().map(|x| serde_json::to_value(x).unwrap()).collect()
+    }
+    match prop {
+        "C09" => conv(c09::shrink_candidates(&serde_json::from_value(sc.clone()).unwrap())),
+        "C10" => conv(c10::shrink_candidates(&serde_json::from_value(sc.clone()).unwrap())),
+        "C15" => conv(c15::shrink_candidates(&serde_json::from_value(sc.clone()).unwrap())),
+        "C16" => conv(c16::shrink_candidates(&serde_json::from_value(sc.clone()).unwrap())),
+        "C02" => conv(cbes::shrink_candidates(&serde_json::from_value(sc.clone()).unwrap())),
+        _ => vec![],
+    }
+}
+
+static CURRENT_RUN: std::sync::Mutex<Option<(Instant, String)>> = std::sync::Mutex::new(None);
+
+fn start_watchdog() {
+    let limit = simkit::env_u64("VERIF_STUCK_S", 20);
+    std::thread::spawn(move || {
+        loop {
+            std::thread::sleep(std::time::Duration::from_millis(500));
+            let stuck = {
+                let g = CURRENT_RUN.lock().unwrap();
+                g.as_ref().and_then(|(t, j)| (t.elapsed().as_secs() >= limit).then(|| j.clone()))
+            };
+            if let Some(j) = stuck {
+                println!("{j}");
+                std::process::exit(0);
+            }
+        }
+    });
+}
+
+fn batch(args: &[String]) {
+    start_watchdog();
+    let prop = arg(args, "--prop").expect("--prop");
+    let seed: u64 = arg(args, "--seed").and_then(|s| s.parse().ok()).unwrap_or(1);
+    let worker: u64 = arg(args, "--worker").and_then(|s| s.parse().ok()).unwrap_or(0);
+    let workers: u64 = arg(args, "--workers").and_then(|s| s.parse().ok()).unwrap_or(1);
+    let budget: f64 = arg(args, "--budget-s").and_then(|s| s.parse().ok()).unwrap_or(10.0);
+    let max_runs: u64 = arg(args, "--max-runs").and_then(|s| s.parse().ok()).unwrap_or(u64::MAX);
+    let thorough = arg(args, "--tier").as_deref() == Some("thorough");
+    let emit_traces = args.iter().any(|a| a == "--emit-traces");
+    let base = mix(seed, label(&format!("storage_sim/{prop}")));
+    let start = Instant::now();
+    let stdout = std::io::stdout();
+    let mut runs = 0u64;
+    let mut shapes: HashSet<u64> = HashSet::new();
+    let mut traces: HashSet<u64> = HashSet::new();
+    let mut failures = 0u64;
+    let mut known = 0u64;
+    let mut totals: BTreeMap<String, u64> = BTreeMap::new();
+    let mut probes: BTreeMap<String, u64> = BTreeMap::new();
+    let mut faults: BTreeMap<String, u64> = BTreeMap::new();
+    let mut samples: Vec<Value> = Vec::new();
+    let mut trace_list: Vec<(u64, u64)> = Vec::new();
+    let mut last_emit = Instant::now();
+    macro_rules! emit_summary {
+        () => {{
+            let mut o = stdout.lock();
+            writeln!(
+                o,
+                "{}",
+                serde_json::json!({
+                    "type": "summary", "prop": prop, "worker": worker, "runs": runs,
+                    "failures": failures, "known": known,
+                    "nontrivial_shapes": shapes.iter().collect::<Vec<_>>(),
+                    "traces": traces.len(), "totals": totals, "probes": probes,
+                    "faults": faults, "samples": samples, "trace_list": trace_list,
+                    "wall_s": start.elapsed().as_secs_f64(),
+                })
+            )
+            .unwrap();
+        }};
+    }
+    let mut i = worker;
+    while runs < max_runs && start.elapsed().as_secs_f64() < budget {
+        let run_seed = mix(base, i);
+        let sc = generate(&prop, run_seed, thorough);
+        {
+            let rf = ReplayFile {
+                property: prop.clone(),
+                harness: "storage_sim".into(),
+                seed: run_seed,
+                scenario: sc.clone(),
+                choices: None,
+                class: "stuck".into(),
+                message: "a simulated thread made no progress (blocked or spinning inside the code under test); wall-clock backstop".into(),
+                known: None,
+            };
+            *CURRENT_RUN.lock().unwrap() =
+                Some((Instant::now(), serde_json::json!({"type": "failure", "i": i, "replay": rf}).to_string()));
+        }
+        let out = run(&prop, &sc, None);
+        *CURRENT_RUN.lock().unwrap() = None;
+        runs += 1;
+        let sh = simkit::fnv(&serde_json::to_vec(&sc).unwrap());
+        if out.nontrivial {
+            shapes.insert(sh);
+        }
+        traces.insert(mix(sh, out.trace_hash));
+        if emit_traces {
+            let oh = simkit::fnv(format!("{:?}{:?}", out.failure.as_ref().map(|f| &f.0), out.stats).as_bytes());
+            trace_list.push((i, mix(out.trace_hash, oh)));
+        }
+        for (k, v) in &out.stats {
+            *totals.entry(k.clone()).or_insert(0) += v;
+        }
+        for (k, v) in &out.probes {
+            *probes.entry(k.clone()).or_insert(0) += v;
+        }
+        for (k, v) in &out.faults {
+            *faults.entry(k.clone()).or_insert(0) += v;
+        }
+        if samples.len() < 2 && out.nontrivial {
+            samples.push(serde_json::json!({"run_seed": run_seed, "scenario": sc}));
+        }
+        if let Some((class, msg, k)) = &out.failure {
+            failures += 1;
+            if k.is_some() {
+                known += 1;
+            }
+            if failures <= 20 || k.is_none() {
+                let rf = ReplayFile {
+                    property: prop.clone(),
+                    harness: "storage_sim".into(),
+                    seed: run_seed,
+                    scenario: sc.clone(),
+                    choices: Some(out.choices.clone()),
+                    class: class.clone(),
+                    message: msg.clone(),
+                    known: k.clone(),
+                };
+                let mut o = stdout.lock();
+                writeln!(o, "{}", serde_json::json!({"type": "failure", "i": i, "replay": rf})).unwrap();
+            }
+        }
+        if last_emit.elapsed().as_secs() >= 5 {
+            emit_summary!();
+            last_emit = Instant::now();
+        }
+        i += workers;
+    }
+    emit_summary!();
+}
+
+fn replay_cmd(args: &[String]) -> i32 {
+    let path = args[0].clone();
+    let rf: ReplayFile = serde_json::from_str(&std::fs::read_to_string(&path).expect("read replay")).expect("parse");
+    {
+        let limit = simkit::env_u64("VERIF_STUCK_S", 20);
+        let expected = rf.class.clone();
+        let path = path.clone();
+        std::thread::spawn(move || {
+            std::thread::sleep(std::time::Duration::from_secs(limit));
+            let reproduced = expected == "stuck";
+            println!(
+                "{}",
+                serde_json::json!({"type": "replay", "file": path, "expected_class": expected, "class": "stuck",
+                    "message": format!("no progress for {limit} s of wall-clock time"), "known": null, "reproduced": reproduced})
+            );
+            std::process::exit(if reproduced { 0 } else { 3 });
+        });
+    }
+    // the schedule is a function of the scenario's seed; the recorded choices
+    // are replayed when present
+    let out = run(&rf.property, &rf.scenario, rf.choices.clone());
+    let (class, msg, known) = match &out.failure {
+        Some(f) => f.clone(),
+        None => ("none".into(), String::new(), None),
+    };
+    let reproduced = class == rf.class;
+    println!(
+        "{}",
+        serde_json::json!({"type": "replay", "file": path, "expected_class": rf.class, "class": class,
+            "message": msg, "known": known, "reproduced": reproduced})
+    );
+    if reproduced { 0 } else { 3 }
+}
+
+fn shrink_cmd(args: &[String]) -> i32 {
+    let rf: ReplayFile = serde_json::from_str(&std::fs::read_to_string(&args[0]).expect("read")).expect("parse");
+    let budget: usize = args.get(2).and_then(|s| s.parse().ok()).unwrap_or(1500);
+    let mut best = rf.clone();
+    // candidates run with the seeded schedule (a recorded choice list does
+    // not survive the removal of operations)
+    let fails = |sc: &Value| -> Option<(String, Option<String>, Vec<String>)> {
+        let out = run(&rf.property, sc, None);
+        let (c, m, k) = out.failure?;
+        (c == rf.class && k.is_some() == rf.known.is_some()).then_some((m, k, out.choices))
+    };
+    let mut runs = 0usize;
+    if rf.class != "stuck" {
+        if let Some((m, k, ch)) = fails(&best.scenario) {
+            best.message = m;
+            best.known = k;
+            best.choices = Some(ch);
+            let mut progress = true;
+            while progress && runs < budget {
+                progress = false;
+                for cand in candidates(&rf.property, &best.scenario) {
+                    if runs >= budget {
+                        break;
+                    }
+                    runs += 1;
+                    if let Some((m, k, ch)) = fails(&cand) {
+                        best.scenario = cand;
+                        best.message = m;
+                        best.known = k;
+                        best.choices = Some(ch);
+                        progress = true;
+                        break;
+                    }
+                }
+            }
+        }
+    }
+    std::fs::write(&args[1], serde_json::to_string_pretty(&best).unwrap()).expect("write");
+    0
+}
+
 fn main() {
-    eprintln!("storage_sim: under construction");
-    std::process::exit(2);
+    simkit::panics::install();
+    common::install_hooks();
+    let args: Vec<String> = std::env::args().skip(1).collect();
+    let code = match args.first().map(String::as_str) {
+        Some("batch") => {
+            batch(&args[1..]);
+            0
+        }
+        Some("replay") => replay_cmd(&args[1..]),
+        Some("shrink") => shrink_cmd(&args[1..]),
+        _ => {
+            eprintln!("usage: storage_sim batch|replay|shrink ...");
+            2
+        }
+    };
+    std::process::exit(code);
 }
